@@ -72,6 +72,11 @@ def outer():
     def inner(z):
         return z
     return inner
+
+
+# names that used to be functions of this module and are builtins now (one without an introspectable signature, one with)
+from builtins import getattr    # noqa: E402,F401
+from builtins import len        # noqa: E402,F401
 '''
 
 CFG = '''
@@ -117,6 +122,8 @@ def rows_for(pkg):
         "s_func_now_settable_property": (core, "K.settable", {"self": k}, INT, None),
         "s_func_now_another_function": (core, "rewrapped", {"a": INT}, INT, None),
         "s_func_local_scope": (core, "outer.<locals>.inner", {"z": INT}, INT, None),
+        "s_func_now_builtin_without_signature": (core, "getattr", {"a": INT}, INT, None),
+        "s_func_now_builtin": (core, "len", {"a": STR}, INT, None),
         "s_arg_class_removed": (core, "keep", {"a": J(core, "RemovedClass")}, INT, None),
         "s_return_module_removed": (core, "keep", {"a": INT}, J(pkg + ".gone_mod", "Thing"), None),
         "s_yield_submodule_removed": (core, "keep2", {"x": INT}, None, J(pkg + ".core.gone", "Thing")),
